@@ -321,9 +321,44 @@ def gen_eui64(tree):
     return '\n'.join(out) + '\n'
 
 
+# module-level names the functions of the property may read: imports, the gettext marker, sibling functions / the
+# result class.  Anything else at module level (a cache dict, a counter, a flag) is state the translation does not
+# see: refuse (GenError -> baseline fallback, the correspondence / statelessness checks decide).
+ALLOWED_GLOBALS = {'netaddr', 'parse', '_', 'is_valid_ipv4', 'is_valid_ipv6', '_ModifiedSplitResult', 'INET_ATON', 'INET_PTON'}
+STATELESS = [('get_ipv6_addr_by_EUI64', None), ('get_mac_addr_by_ipv6', None), ('parse_host_port', None), ('escape_ipv6', None),
+             ('urlsplit', None), ('is_valid_ipv4', None), ('is_valid_ipv6', None), ('params', '_ModifiedSplitResult')]
+
+def check_no_module_state(tree):
+    import builtins
+    for name, cls in STATELESS:
+        f = find_def(tree, name, cls)
+        local = {a.arg for a in f.args.args + f.args.kwonlyargs}
+        if f.args.vararg: local.add(f.args.vararg.arg)
+        if f.args.kwarg: local.add(f.args.kwarg.arg)
+        for n in ast.walk(f):
+            if isinstance(n, (ast.Global, ast.Nonlocal)): raise GenError('%s declares global/nonlocal %s' % (name, ', '.join(n.names)))
+            if isinstance(n, ast.Name) and isinstance(n.ctx, (ast.Store, ast.Del)): local.add(n.id)
+            if isinstance(n, ast.ExceptHandler) and n.name: local.add(n.name)
+            if isinstance(n, (ast.FunctionDef, ast.Lambda, ast.ClassDef)) and n is not f: raise GenError('%s defines a nested function/class' % name)
+            if isinstance(n, ast.comprehension):
+                for t in ast.walk(n.target):
+                    if isinstance(t, ast.Name): local.add(t.id)
+        for n in ast.walk(f):
+            if isinstance(n, ast.Name) and isinstance(n.ctx, ast.Load) and n.id not in local \
+                    and n.id not in ALLOWED_GLOBALS and not hasattr(builtins, n.id):
+                raise GenError('%s reads the module-level name %s (state the translation does not see)' % (name, n.id))
+        # attributes hung on the function objects themselves (f.cache = {...})
+    for n in ast.walk(tree):
+        if isinstance(n, (ast.Assign, ast.AugAssign, ast.AnnAssign)):
+            for t in (n.targets if isinstance(n, ast.Assign) else [n.target]):
+                if isinstance(t, ast.Attribute) and isinstance(t.value, ast.Name) and t.value.id in {x for x, _ in STATELESS} | {'_ModifiedSplitResult'}:
+                    raise GenError('attribute %s.%s is assigned' % (t.value.id, t.attr))
+
+
 def generate():
     failclosed.check_all(FAILCLOSED['generate'])
     tree = repo_ast('oslo_utils/netutils.py')
+    check_no_module_state(tree)
     try:
         parts = [gen_eui64(tree), gen_mac_of_ipv6(tree), gen_parse_host_port(tree), gen_urlsplit_post(tree)]
     except Unsupported as e:
